@@ -169,7 +169,8 @@ theorem map_is_lazy (f : Nat) (env : Env) (a b : Expr) (σ σ1 σ2 : St) (it g :
     (ha : eval f env a σ = (.ok it, σ1)) (hb : eval f env b σ1 = (.ok g, σ2))
     (hr : g.asType.returnType = some r) :
     eval (f + 1) env (.bin .map a b) σ =
-      (.ok (.fn σ2.nextId [] (.tup [.bool, r]) mapBody [("func", it), ("mapper", g)] none),
+      (.ok (.fn σ2.nextId [] (.tup [.bool, r]) mapBody
+              [("func", it), ("mapper", g), ("default", (ofType r).getD .unit)] none),
        { σ2 with nextId := σ2.nextId + 1 }) := by
   simp only [eval, bind_def, ha, hb, hr]; rfl
 
@@ -193,7 +194,7 @@ theorem type_filter_is_lazy (f : Nat) (env : Env) (a : Expr) (t : Ty) (σ σ1 : 
 theorem map_body_shape : mapBody =
     [ .set "res" (.call (.var "func") []),
       .destruct ["con", "value"] (.var "res"),
-      .ifElse (.pre .not (.var "con")) (.ret (some (.var "res"))) none,
+      .ifElse (.pre .not (.var "con")) (.ret (some (.tuple [.litBool false, .var "default"]))) none,
       .ret (some (.tuple [.litBool true, .call (.var "mapper") [.var "value"]])) ] := rfl
 
 end Ssl.C11
